@@ -23,6 +23,9 @@ def run(ctx):
                         what="the written file is not a conforming description of the font (TraceT1Write)", neg=False)
     ctx.extra["glyph_events"] = r["glyph_events"]
     ctx.extra["fonts"] = r["fonts"]
+    ctx.extra["segment_shapes"] = r.get("shapes")
+    if r.get("shapes_missing"):
+        raise core.Broken("vacuity: segment shapes never generated: %s" % r["shapes_missing"])
     # negative controls: a wrong PFB length, a wrong PDF length, a moved point
     d = ctx.specdir()
     lines = open(os.path.join(d, "tv-trace-t1write.ndjson")).read().splitlines()
